@@ -201,6 +201,10 @@ class Ref:
                 st = -1
             else:
                 x.drop_n, x.drop_p = args
+        elif verb == "FAKE_TRXC_DELAY" and n == 1:
+            # response delay in ms: negative values and values above one minute are refused
+            if args[0] < 0 or args[0] > 60000:
+                st = -1
         # anything else (unknown verb, other argument count): acknowledged with 0, no effect
         return {"verb": verb, "status": st, "args": m.group(2).split(), "res": res}
 
